@@ -300,6 +300,34 @@ def run(tier):
             res.instance("C08.R1", "%s:%s %s" % (fn.name, ln, what), ok, finding=f_)
     res.floor("C08.R1", 80)
 
+    # ------------------------------------------------------------------ R1x: (cursor, length) handed to code outside the analysed files
+    res.rule("C08.R1x", "a wire cursor handed to a function outside the analysed parsers together with a length (the adjacent "
+                        "integer parameter named *len* / *size*) has that many bytes proven available at the call site")
+    import re as _re
+    n_x = 0
+    for fn in fns:
+        ca = results[fn.qname]
+        for (q, proved, ln), (q_, wire, ln_) in zip(ca.call_facts, ca.call_wire):
+            if q in names:
+                continue            # analysed callee: its own obligations, with the entry pairs all call sites prove
+            proved = {k_: v_ for k_, v_ in proved.items() if wire.get(k_)}      # local buffers (hash arrays) are R2's business
+            t = prog.functions.get(q)
+            if t is None:
+                continue
+            for (i, j), ok in sorted(proved.items()):
+                if j != i + 1 or not _re.search(r"len|Len|size|Size|bytes", t.params[j].get("n") or ""):
+                    continue
+                n_x += 1
+                f_ = None
+                if not ok:
+                    f_ = Finding(PROP, "C08.R1x", fn.name, "%s given more bytes than proven available" % t.name,
+                                 "%s:%s %s(): %s() receives the wire cursor (argument %d) with length argument %d (`%s`), but that many "
+                                 "bytes are not proven available between the cursor and the end of the message on every path to the "
+                                 "call: the callee reads past the received data for a crafted length" % (
+                                     fn.relfile, ln, fn.name, t.name, i + 1, j + 1, t.params[j].get("n")), file=fn.relfile, line=ln)
+                res.instance("C08.R1x", "%s:%s %s(cursor, %s)" % (fn.name, ln, t.name, t.params[j].get("n")), ok, finding=f_)
+    res.floor("C08.R1x", 5)
+
     # ------------------------------------------------------------------ R1f: DTLS fragment copy
     res.rule("C08.R1f", "DTLS reassembly copy: source covered by the record, destination inside the reassembly buffer")
     found = 0
